@@ -350,6 +350,10 @@ func (r *ruleData) isWatch() bool {
 	if r.fields[1] != permField || len(r.strings) == 0 {
 		return false
 	}
+	// -w cleans its path and insists on an absolute one.
+	if p := r.strings[0]; !filepath.IsAbs(p) || filepath.Clean(p) != p {
+		return false
+	}
 	if len(r.fields) == 3 && (r.fields[2] != keyField || len(r.strings) < 2 || strings.Contains(r.strings[1], ",")) {
 		return false
 	}
